@@ -379,6 +379,11 @@ class RenderContext:
                 token=token,
             )
 
+        # What is refused in this context is refused in contexts copied from it. A
+        # tag in a rendered template does not get `include` back by copying.
+        if self.disabled_tags:
+            disabled_tags = self.disabled_tags | (disabled_tags or set())
+
         if carry_loop_iterations:
             loop_iteration_carry = reduce(
                 mul,
